@@ -42,6 +42,8 @@ func genName(r *hx.Rand) string {
 		name += "/" + hx.Pick(r, []string{"p=1", "p=2", "q=1", "q=x", "gomaxprocs=4", "z", "p=", "r=7",
 			// dashes inside values and non-numeric dash tails (only a trailing -digits is GOMAXPROCS)
 			"p=en-US", "p=en-GB", "q=1-2", "q=a-b-c", "p=-", "r=7-x", "z-9",
+			// '=' inside values: the key of a part ends at its FIRST '='
+			"p=v=w", "p=a==b", "q=QUJDRA==", "p=-l=4", "q==", "p==x", "gomaxprocs=a=b",
 			// blanks in name values (API-built results)
 			"p=1 ", "p= 1", "q=x\t", "q= ", "p=1  2"})
 	}
